@@ -148,7 +148,7 @@ func (e *enc) instr(b *ssa.BasicBlock, ins ssa.Instruction) {
 		n := e.havoc(i)
 		e.allocFresh(n)
 		el := i.Type().Underlying().(*types.Pointer).Elem()
-		if !i.Heap || allocPrivate(i) {
+		if !i.Heap || allocPrivate(i) || allocWrittenOnce(i) {
 			pa := privAlloc{ref: n, arrs: map[string]bool{}}
 			switch el.Underlying().(type) {
 			case *types.Struct:
@@ -289,6 +289,12 @@ func (e *enc) instr(b *ssa.BasicBlock, ins ssa.Instruction) {
 		e.allocFresh(n)
 		mt := i.Type().Underlying().(*types.Map)
 		ks, vs := e.sortOf(mt.Key()), e.sortOf(mt.Elem())
+		if mapPrivate(i) && mapSupported(ks, vs) {
+			// a map that never leaves the function before it is returned keeps its content across calls
+			hasA, valA := e.mapArrs(ks, vs)
+			e.harr("MapLen", "(Array Ref "+e.isort()+")")
+			e.priv = append(e.priv, privAlloc{ref: n, arrs: map[string]bool{hasA: true, valA: true, "MapLen": true}})
+		}
 		if mapSupported(ks, vs) {
 			has, _ := e.mapArrs(ks, vs)
 			e.assume(fmt.Sprintf("(= (select %s %s) ((as const (Array %s Bool)) false))", e.hname(has), n, e.smtSort(ks)))
@@ -620,6 +626,11 @@ func (e *enc) storeInstr(b *ssa.BasicBlock, i *ssa.Store) {
 		l = e.cellLoc(a, el)
 	}
 	e.storeHook(b, i, l, v)
+	if fa, ok := i.Addr.(*ssa.FieldAddr); ok {
+		fname := fa.X.Type().Underlying().(*types.Pointer).Elem().Underlying().(*types.Struct).Field(fa.Field).Name()
+		e.callOrd["#store:"+fname]++
+		e.siteAsserts(i, fmt.Sprintf("store %s %d", fname, e.callOrd["#store:"+fname]), nil, nil, R)
+	}
 	switch l.kind {
 	case "struct":
 		e.storeStruct(l.ref, l.t, v, 0)
@@ -1072,4 +1083,80 @@ func closureFnSync(fn *ssa.Function) bool {
 		}
 	}
 	return found
+}
+
+// allocWrittenOnce: a captured variable that is assigned exactly once by its function (its
+// initialisation) and by none of the closures capturing it keeps its value wherever the closures go.
+func allocWrittenOnce(a *ssa.Alloc) bool {
+	stores := 0
+	for _, r := range *a.Referrers() {
+		switch u := r.(type) {
+		case *ssa.Store:
+			if u.Addr != ssa.Value(a) {
+				return false // address stored somewhere
+			}
+			stores++
+		case *ssa.UnOp, *ssa.DebugRef:
+		case *ssa.MakeClosure:
+			fn := u.Fn.(*ssa.Function)
+			for i, bd := range u.Bindings {
+				if bd == ssa.Value(a) && freeVarWritten(fn, i, 0) {
+					return false
+				}
+			}
+		default:
+			return false
+		}
+	}
+	return stores <= 1
+}
+
+func freeVarWritten(fn *ssa.Function, idx int, depth int) bool {
+	if idx >= len(fn.FreeVars) || depth > 4 {
+		return true
+	}
+	fv := fn.FreeVars[idx]
+	for _, r := range *fv.Referrers() {
+		switch u := r.(type) {
+		case *ssa.Store:
+			return true
+		case *ssa.UnOp, *ssa.DebugRef:
+		case *ssa.MakeClosure:
+			inner := u.Fn.(*ssa.Function)
+			for i, bd := range u.Bindings {
+				if bd == ssa.Value(fv) && freeVarWritten(inner, i, depth+1) {
+					return true
+				}
+			}
+		default:
+			_ = u
+			return true
+		}
+	}
+	return false
+}
+
+// mapPrivate: the map is only updated, read, measured, ranged over or returned by its function.
+func mapPrivate(m *ssa.MakeMap) bool {
+	for _, r := range *m.Referrers() {
+		switch u := r.(type) {
+		case *ssa.MapUpdate:
+			if u.Map != ssa.Value(m) {
+				return false
+			}
+		case *ssa.Lookup:
+			if u.X != ssa.Value(m) {
+				return false
+			}
+		case *ssa.Range, *ssa.DebugRef, *ssa.Return:
+		case *ssa.Call:
+			b, ok := u.Call.Value.(*ssa.Builtin)
+			if !ok || (b.Name() != "len" && b.Name() != "delete") {
+				return false
+			}
+		default:
+			return false
+		}
+	}
+	return true
 }
